@@ -50,7 +50,7 @@ func (pythonTarget) RunCells(e *Env, cells []*Cell) {
 			return
 		}
 		so, se, err := runSegments(c, func(in []byte) ([]byte, []byte, error) {
-			return Run(dir, 300*time.Second, []string{"PYTHONPATH=" + e.Runtime("python") + ":" + dir, "PYTHONDONTWRITEBYTECODE=1"}, in,
+			return RunCapped(dir, 300*time.Second, []string{"PYTHONPATH=" + e.Runtime("python") + ":" + dir, "PYTHONDONTWRITEBYTECODE=1"}, in, MaxDriverOutput,
 				"python3", filepath.Join(e.Runtime("python"), "driver.py"), dir, mod)
 		})
 		if err != nil && len(so) == 0 {
